@@ -16,7 +16,7 @@ class C03(diffprop.Spec):
     rule = ("random build programs (AddFirst/AddLast/AddHandler, positions -3..size+1, 0-3 handlers per call, repeated instances, 4% inadmissible handlers) over "
             "2-8 probe handlers drawn from all 63 interface subsets with random forwarding masks; after the program every query (Size, forward chain via IndexOf, "
             "backward chain via LastIndexOf, IndexOf/LastIndexOf per instance, ContextAt -3..size+1) and every event kind through pipeline.Fire*, Channel.Write/Trigger, "
-            "ctx.Write/ctx.Trigger and ctx.HandleX from every position; non-trivial = a build op, or an event line with at least one visited handler; distinct by full line; between two build operations, 1/2 of the time, 1-3 of active / read / user event / write are fired through the half-built pipeline")
+            "ctx.Write/ctx.Trigger and ctx.HandleX from every position; non-trivial = a build op, or an event line with at least one visited handler; distinct by full line; between two build operations, 1/2 of the time, 1-3 of active / read / user event / write are fired through the half-built pipeline; the exception fired through the pipeline is a plain error, a timeout / non-timeout net.Error (bare or wrapped) or io.EOF")
     assumptions = (
         "handlers are modelled as forward/stop per event kind (probe handlers do exactly that); handlers that re-enter the pipeline from inside a callback are covered by C07's model",
         "Go interface satisfaction (which of the six interfaces a handler implements) is taken from the probe type's method set",
